@@ -5,11 +5,12 @@ import random
 LEVEL = 'exploration'
 RULE = ('all 2^7 subsets of {--gc (1-3 values), -G flag(s), --coverage, '
         '--profile cProfile, --buffer, warnings= argument, -D with scripted '
-        'stdin} x 14 endings {a feature's own tear-down raising (stray empty profile file), normal, failing tests, exception from a layer '
+        'stdin} x 14 endings {a raising feature tear-down (stray empty '
+        'profile file), normal, failing tests, exception from a layer '
         'testSetUp hook, exception from a layer testTearDown hook (also '
         'around a test skipped in body/setUp, interrupted, or with several '
         'result events), KeyboardInterrupt in a test body / setUp / '
-        'tearDown, -x} = 1664 '
+        'tearDown, -x} = 1792 '
         'cases, exhaustive in both tiers (thorough repeats them with 3 more '
         'parameter seeds). A snapshot of gc thresholds/debug flags, '
         'traceback.format_exception/print_exception, sys.gettrace, '
